@@ -9,7 +9,7 @@
 //! is forwarded in fragments of case-chosen sizes (`h2` cases).
 //!
 //! Case grammar (space separated):
-//!   call|h2 S<q><s> C<s'> <yieldThr> RQMD <hmap> RQ <k> <tok>*k RQCUT <j> <step>*j
+//!   (call|h2).S<q><s>.C<s'> <yieldThr> RQMD <hmap> RQ <k> <tok>*k RQCUT <j> <step>*j
 //!        H <reads> E <status|-> INIT <hmap> BODY <k> <tok>*k FINAL <status|-> RSCUT <j> <step>*j
 //!     q,s,s' ∈ {0,1}: server entry point takes a request stream / returns a response stream;
 //!                     client API returns a response stream
@@ -132,7 +132,7 @@ fn status_line(st: &Option<StatusSpec>) -> String {
 impl Case {
     pub fn line(&self) -> String {
         format!(
-            "{} S{}{} C{} {} RQMD {} RQ {} RQCUT {} H {} E {} INIT {} BODY {} FINAL {} RSCUT {}",
+            "{}.S{}{}.C{} {} RQMD {} RQ {} RQCUT {} H {} E {} INIT {} BODY {} FINAL {} RSCUT {}",
             if self.h2 { "h2" } else { "call" },
             b(self.srv_req_stream),
             b(self.srv_resp_stream),
@@ -218,12 +218,16 @@ impl<'a> Cur<'a> {
 
 pub fn parse_case(line: &str) -> Option<Case> {
     let mut c = Cur { t: line.split(' ').filter(|x| !x.is_empty()).collect(), i: 0 };
-    let kind = c.next()?;
+    let head: Vec<&str> = c.next()?.split('.').collect();
+    if head.len() != 3 {
+        return None;
+    }
+    let kind = head[0];
     if kind != "call" && kind != "h2" {
         return None;
     }
-    let s = c.next()?.as_bytes();
-    let cl = c.next()?.as_bytes();
+    let s = head[1].as_bytes();
+    let cl = head[2].as_bytes();
     if s.len() != 3 || cl.len() != 2 || s[0] != b'S' || cl[0] != b'C' {
         return None;
     }
